@@ -287,9 +287,53 @@ def callgraph_export(cx):
     return len(res)
 
 
+def c17_inprocess(cx):
+    """the whole pipeline (parse, functions, four analyses, nine detectors) in-process on many programs with unreachable
+    code, adversarial layouts and dense control flow: an exception of the real tool is an internal error of `tealer detect`,
+    unless the program has the shape of a listed finding and the reference model raises the same exception there"""
+    import engine, gen
+    n = 60 if cx.quick() else 1500
+    items = []
+    for i in range(n):
+        items.append({'name': f'deadcode/{cx.seed}/{i}', 'src': gen.deadcode(cx.seed, i), 'nenv': 0, 'seed': cx.seed})
+        items.append({'name': f'layout/{cx.seed}/{i}', 'src': gen.layout(cx.seed, i), 'nenv': 0, 'seed': cx.seed})
+        if i % 2 == 0: items.append({'name': f'dense/{cx.seed}/{i}', 'src': gen.dense(cx.seed, i), 'nenv': 0, 'seed': cx.seed})
+    res = engine.run_items(items)
+    stats = {'programs': 0, 'impl_errors': 0, 'shared_block_programs': 0, 'parse_rejected': 0, 'timeouts': 0}
+    for it, r in zip(items, res):
+        if r['status'] == 'harness-error':
+            raise RuntimeError(r.get('detail', '')[-800:])
+        if r['status'] == 'impl-parse-error': stats['parse_rejected'] += 1; continue
+        if r['status'] == 'impl-timeout': stats['timeouts'] += 1; continue
+        stats['programs'] += 1
+        cx.distinct.add(r['name'])
+        if r.get('shared_blocks'):
+            stats['shared_block_programs'] += 1        # a subroutine body entered other than through callsub: outside C17
+            continue
+        err = r.get('impl_err')
+        if not err: continue
+        stats['impl_errors'] += 1
+        known = None
+        if r.get('model_err') == err:
+            for f in cx.findings:
+                if f.get('status') == 'known' and 'C17' in f.get('properties', []) and f.get('shape') in r.get('shapes', []):
+                    known = f; break
+        if known:
+            cx.known_seen[known['id']] = f"{known['what']} [{r['name']}: {err}]"
+        else:
+            cx.violations.append({'kind': 'internal-error', 'program': r['name'], 'prop': 'C17', 'field': 'in-process', 'where': err,
+                                  'detail': f"the analysis raises {err} on a valid program (reference model: {r.get('model_err') or 'no error'})", 'src': it['src'], 'env': None})
+    cx.evaluations += stats['programs']
+    return stats
+
+
 def c17(cx):
+    inproc = c17_inprocess(cx)
     n = 10 if cx.quick() else 120
     items = programs(cx, n)
+    import gen as _gen
+    for i in range(6 if cx.quick() else 60):
+        items.append({'name': f'deadcode/{cx.seed}/{2000 + i}', 'src': _gen.deadcode(cx.seed, 2000 + i)})
     for it in items: it['modes'] = MODES
     for k, (src, fid) in KNOWN_CRASHERS.items():
         items.append({'name': 'known:' + k, 'src': src, 'modes': MODES[:2], 'finding': fid})
@@ -310,8 +354,8 @@ def c17(cx):
         cx.distinct.add(r['name'])
     cx.evaluations += runs
     cx.samples += [{'program': res[0]['name'], 'source': res[0]['src'], 'runs': res[0]['runs']}]
-    return {'programs': len(items), 'disagreements_checked': 0, 'cli_runs': runs, 'modes': [m for m, _ in MODES],
-            'rule': 'adversarial layouts + generated fragment / call-loop programs x {detect text, detect JSON, 5 printers} as subprocesses; distinct = distinct programs'}
+    return {'programs': len(items) + inproc['programs'], 'disagreements_checked': 0, 'cli_runs': runs, 'modes': [m for m, _ in MODES], 'in_process': inproc,
+            'rule': 'in-process: whole pipeline on dead-code / adversarial-layout / dense programs (exception = internal error); CLI: adversarial layouts + generated fragment / call-loop / dead-code programs x {detect text, detect JSON, 5 printers} as subprocesses; distinct = distinct programs'}
 
 
 def c18(cx):
